@@ -52,3 +52,58 @@ def order_ops(rep, rid, facts, crates=('toml_edit', 'toml'), floor_shift=6):
         rep.ok(rid, f'{facts.config}|no-order-breaking-op', f'{n_bodies} bodies scanned, none calls swap_remove* / IndexMap::remove / sort_unstable* / swap_indices')
     rep.check(rid, f'{facts.config}|positive-control', shift >= floor_shift, f'shift_remove family found {shift} times by the same query',
               f'the query finds only {shift} shift_remove sites (expected >= {floor_shift}): removal no longer goes through shift_remove or the query is broken')
+
+
+def array_separators(rep, R, facts):
+    """encode_array: a separator for every element but the first; the trailing comma is printed exactly when
+    trailing_comma() && !is_empty() (an emptied array must not print `[,]`)."""
+    from .core import peel
+    from .den import truth_table, Evaluator, Unanalysable
+    # encode_array: separator for every element but the first; trailing comma reads trailing_comma() and !is_empty()
+    b = facts.body('toml_edit::encode::encode_array')
+    loc = facts.loc(b)
+    ev = Evaluator(facts)
+    sep_ifs = []
+    for n in walk(b['body']):
+        if n.get('k') == 'if':
+            then_sep = any(x.get('k') == 'mcall' and x.get('name') == 'val_sep' for x in walk(n['then']))
+            else_sep = 'else' in n and any(x.get('k') == 'mcall' and x.get('name') == 'val_sep' for x in walk(n['else']))
+            if then_sep or else_sep:
+                sep_ifs.append((n, then_sep, else_sep))
+    first_ok = False
+    trailing_ok = False
+    trailing_detail = 'not found'
+    for n, then_sep, else_sep in sep_ifs:
+        c = peel(n['cond'])
+        # element separator: condition compares the loop index with 0
+        idx = [x for x in walk(c) if x.get('k') == 'path' and x.get('res') == 'Local' and x.get('t') == 'usize']
+        if idx and not any(x.get('k') == 'mcall' for x in walk(c)):
+            try:
+                var = idx[0]['path']
+                from .den import Interp
+                it = Interp(ev)
+                vals = {i: bool(it.run(c, {var: i})) for i in range(0, 4)}
+                sep_at = {i: (then_sep and vals[i]) or (else_sep and not vals[i]) for i in vals}
+                first_ok = sep_at == {0: False, 1: True, 2: True, 3: True}
+            except Unanalysable:
+                first_ok = False
+        else:
+            def atom(x):
+                if x.get('k') == 'mcall' and x.get('name') in ('trailing_comma', 'is_empty'):
+                    return x['name']
+                return None
+            try:
+                names, table = truth_table(ev, c, atom)
+                want = {}
+                if names == ['is_empty', 'trailing_comma']:
+                    for (ie, tc), v in table.items():
+                        want[(ie, tc)] = tc and not ie
+                    trailing_ok = then_sep and table == want
+                    trailing_detail = f'atoms {names}, table {table}'
+                else:
+                    trailing_detail = f'condition reads {names}, expected trailing_comma() and is_empty()'
+            except Unanalysable as e:
+                trailing_detail = str(e)
+    rep.check(R, 'encode_array|separator-all-but-first', first_ok, 'val_sep for i != 0', 'the element separator is not emitted for exactly the elements after the first', loc)
+    rep.check(R, 'encode_array|trailing-comma-flag', trailing_ok, 'trailing comma iff trailing_comma() && !is_empty()',
+              f'the trailing comma is not printed exactly when trailing_comma() && !is_empty(): {trailing_detail}', loc)
